@@ -100,6 +100,30 @@ class C01(PropBase):
                         order=rng.choice(["", "sA", "aAcCdDNSWEsVv", "zz"]), update=rng.choice([-1, 0, 3, 10 ** 15, -10 ** 15]),
                         show=int(k % 3 == 0), elog=int(k % 4 == 1), dlog=int(k % 5 == 2), logm=rng.choice(["-", "17", "4,5,11,17,20,21"]))
             streams.append((opts, lines))
+        # crowded screens: 24-40 aircraft, some with a decoded position (and so a distance, a track ..), some heard by a call sign
+        # or an altitude only, the table printed after every frame under each ordering key - sorting, formatting and the
+        # observer distance of a long, mixed table must not trap either (library sorts switch algorithm above 20 elements)
+        from fractions import Fraction
+        for k, order in enumerate(["d", "D", "W", "E", "N", "S", "a", "A", "v", "V", "c", "s", "aAcCdDNSWEsVv", "Dd", "x"]):
+            if tier == "quick" and k % 2 == 1 and order not in ("D",):
+                continue
+            lines = []
+            n = rng.randrange(24, 41)
+            for a in range(n):
+                addr = 0x4C0000 + rng.randrange(1 << 12) * 16 + a % 16
+                kind = rng.randrange(3)
+                if kind == 0:
+                    la = Fraction(rng.randrange(-8000, 8000), 100); lo = Fraction(rng.randrange(-17900, 17900), 100)
+                    for odd in (0, 1):
+                        yz, xz = F.cpr_encode(la, lo, odd)
+                        lines.append(F.df17(5, addr, F.me_airpos(11, 0, 0, F.ac12_q1(rng.randrange(40, 1800)), 0, odd, yz, xz)).encode())
+                elif kind == 1:
+                    lines.append(gen.rand_frame(rng, rng.choice(["tc4", "tc19.1", "df4"]), addr).encode())
+                else:
+                    lines.append(gen.rand_frame(rng, rng.choice(["df11", "df5", "tc31"]), addr).encode())
+            rng.shuffle(lines)
+            streams.append((dict(use_update=bool(k & 1), show=1, update=-1, order=order, groups=rng.choice(["aAews", "", "e"]), delete_after=600,
+                                 observer=rng.choice([None, "52.0,4.0"])), lines))
         sentinel_addr = 0xABC000
         for si, (opts, lines) in enumerate(streams):
             sent = F.df11(5, sentinel_addr + si % 4096, 0)
